@@ -699,9 +699,12 @@ func (cc *Conn) getResponseFromCache(mid int32, resp *pool.Message) (bool, error
 	return cc.responseMsgCache.Load(strconv.Itoa(int(mid)), resp)
 }
 
-// addResponseToCache adds a message to the response message cache.
-func (cc *Conn) addResponseToCache(resp *pool.Message) error {
-	return cc.responseMsgCache.Store(strconv.Itoa(int(resp.MessageID())), resp)
+// addResponseToCache adds a message to the response message cache under the message ID of
+// the request it answers - duplicates are looked up by the request's message ID. The response
+// to a non-confirmable request carries the endpoint's own message ID, which must not be used
+// as the key: the duplicate would never be found and an unrelated request with that ID would be.
+func (cc *Conn) addResponseToCache(reqMessageID int32, resp *pool.Message) error {
+	return cc.responseMsgCache.Store(strconv.Itoa(int(reqMessageID)), resp)
 }
 
 // checkMyMessageID compare client msgID against peer messageID and if it is near < 0xffff/4 then increase msgID.
@@ -766,7 +769,7 @@ func (cc *Conn) processResponse(reqType message.Type, reqMessageID int32, w *res
 		w.Message().SetMessageID(reqMessageID)
 		w.Message().SetToken(nil)
 
-		err := cc.addResponseToCache(w.Message())
+		err := cc.addResponseToCache(reqMessageID, w.Message())
 		if err != nil {
 			return fmt.Errorf("cannot cache response: %w", err)
 		}
@@ -784,7 +787,7 @@ func (cc *Conn) processResponse(reqType message.Type, reqMessageID int32, w *res
 		w.Message().SetMessageID(reqMessageID)
 	}
 	if reqType == message.Confirmable || reqType == message.NonConfirmable {
-		err := cc.addResponseToCache(w.Message())
+		err := cc.addResponseToCache(reqMessageID, w.Message())
 		if err != nil {
 			return fmt.Errorf("cannot cache response: %w", err)
 		}
